@@ -121,16 +121,19 @@ pub fn large_input(kind: &str, seed: u64) -> Option<(Vec<String>, Settings)> {
         // a few prefix-related short test cases (so that the first self-check fails) plus 16 long ones with a
         // class conversion and no end anchor: the candidate expressions approach the regex crate's size limit
         "class_noend_mix" => {
+            // distinct one-character heads, one shared tail: the minimised candidate has about n class
+            // atoms, the un-minimised one about 16 n
             let mut t: Vec<String> = vec!["+".into(), "+=".into(), "=+".into(), "=+=+".into()];
-            for _ in 0..16 {
-                t.push(format!("{}{}{}", word(&mut rng, &mixed, 2), "a".repeat(n), word(&mut rng, &mixed, 2)));
+            // heads and last characters are not word characters, so they stay literal and keep the branches apart
+            for (k, h) in "-.:;,'@&!~<>/%#?".chars().enumerate() {
+                t.push(format!("{h}{}{}", "a".repeat(n), if k % 2 == 0 { "-" } else { "." }));
             }
             (t, Settings::new(WORD | NOEND))
         }
         "class_noend_mix_digits" => {
             let mut t: Vec<String> = vec!["1".into(), "12".into(), "21".into(), "2121".into()];
-            for _ in 0..12 {
-                t.push(format!("{}{}{}", word(&mut rng, &ab, 2), "7".repeat(n), word(&mut rng, &ab, 3)));
+            for (k, h) in "bcdefghijklm".chars().enumerate() {
+                t.push(format!("{h}{}{}", "7".repeat(n), if k % 2 == 0 { "x" } else { "y" }));
             }
             (t, Settings::new(DIGIT | NSPACE | NOSTART | NOEND))
         }
@@ -140,10 +143,10 @@ pub fn large_input(kind: &str, seed: u64) -> Option<(Vec<String>, Settings)> {
 }
 
 pub const LARGE_QUICK: [&str; 18] = [
-    "class_noend_mix:12",
-    "class_noend_mix:24",
-    "class_noend_mix:32",
-    "class_noend_mix:48",
+    "class_noend_mix:14",
+    "class_noend_mix:30",
+    "class_noend_mix:60",
+    "class_noend_mix:150",
     "class_noend_mix_digits:40",
     "many_short:2000",
     "many_short_rep_ci:2000",
@@ -162,9 +165,9 @@ pub const LARGE_QUICK: [&str; 18] = [
 
 pub const LARGE_THOROUGH: [&str; 18] = [
     "class_noend_mix:20",
-    "class_noend_mix:28",
-    "class_noend_mix:40",
-    "class_noend_mix:80",
+    "class_noend_mix:45",
+    "class_noend_mix:100",
+    "class_noend_mix:200",
     "class_noend_mix_digits:120",
     "many_short:6000",
     "many_short_rep_ci:8000",
